@@ -15,6 +15,7 @@ H = os.path.join(VERIF, "harness")
 CORPUS = [("lex", s) for s in ["", "a", "\"", "\\", "\n", "\r", "\t", "\x00", "\x7f", "a\"b\\c\nd\re", "é", "😀", "é", " ", "\\n", "\\u0041", "'"]] + \
          [("lex", s) for s in ["\u00e9\n", "\u00e9\\", "\U0001F600\"x", "\n\u00e9", "\u041f\u0440\u0438\u0432\u0435\u0442, \"\u043c\u0438\u0440\"!"]] + \
          [("lexdt", s) for s in ["1", "\"\n\\"]] + \
+         [(k, s) for k in ("lexint", "lexbool", "lexdouble", "lexdecimal") for s in ["1", "1\n2", "\"", "\\t", "\r"]] + \
          [("bnode", s) for s in ["a", "a.b", "0a", "a-b", "a·b", "é", "_", "a_b", "a.b.c"]] + \
          [("gbnode", "g1"), ("gname", "http://example.org/g"), ("gname", "http://é.org/ü?q#f")] + \
          [("iri", s) for s in ["http://example.org/", "http://é.org/ü?q#f", "urn:x:y", "http://[::1]/", "a:b%20c", "http://x/\U0001F600"]] + \
@@ -36,6 +37,13 @@ def wt_harness(n, to):
                    timeout=to, note="every valid UTF-8 lexical form of <= %d bytes through the public write_term (lean literal term); oracle = STRING_LITERAL_QUOTE decoder + framing" % n)
 
 
+def dt_harness():
+    return Harness("c03_write_term_datatypes", unwind=8,
+                   unwindset=[(r"^serializer::nt::quoted_string::<", 4, "both"), (r"c03_common::ArrW as std::io::Write>::write$", 48, "loops")],
+                   extra_cbmc=["--unwindset", "memcmp.0:60"], timeout=600,
+                   note="write_term on a literal with one symbolic ASCII byte (or empty) and a symbolic datatype among xsd:string / integer / decimal / double / boolean / non-XSD: escaping and framing do not depend on the datatype")
+
+
 def direct_signature_present():
     import re
     from engine.overlay import REPO
@@ -53,10 +61,11 @@ def kspec(tier):
         if tier == "thorough":
             hs += [esc_harness(4, cap), wt_harness(2, cap), wt_harness(3, cap)]
         files.append(os.path.join(H, "turtle", "c03_write_term.rs"))
+        hs.append(dt_harness())
     else:
         # quoted_string no longer has the signature the direct harness drives: go through the public write_term only
         files.append(os.path.join(H, "turtle", "c03_write_term.rs"))
-        hs += [wt_harness(2, 900), wt_harness(3, 1800)]
+        hs += [wt_harness(2, 900), wt_harness(3, 1800), dt_harness()]
     return kprop.KSpec(
         package="sophia_turtle", crate_dir="turtle",
         harness_files={"turtle": files},
